@@ -8,7 +8,7 @@ TARGETS = ["NetqasmVerif.Props.C14"]
 M = "NetqasmVerif.Props.C14"
 THEOREMS = [(M, "NQ.C14." + n) for n in [
     "balanced", "flush_balanced", "newReg_takes_one", "sequence_compiles", "compiles_of_need",
-    "depth_bound", "long_run_compiles", "fresh_has_16", "temps_disjoint", "temps_disjoint_pick",
+    "depth_bound", "long_run_compiles", "fresh_has_16", "temps_disjoint", "temps_disjoint_code", "temps_disjoint_pick",
     "f17_if_ez_40", "f17_loop_until_20", "need_tight_16"]]
 TRANSLATORS = []
 LEVEL_TEXT = (
@@ -19,7 +19,7 @@ LEVEL_TEXT = (
     "sequence of any length with flushes anywhere never raises 'could not find an available loop register' if each "
     "single operation does not (induction over the list); `compiles_of_need` + `depth_bound` — an operation of "
     "nesting depth k needs at most 1*k + (2 + future-index depth) registers, `long_run_compiles` combines them; "
-    "`temps_disjoint` — a temporary is taken from the inactive set and stays reserved. Tie: syntactic correspondence — "
+    "`temps_disjoint` — a temporary is taken from the inactive set and stays reserved; `temps_disjoint_code` — no EMITTED command of an operation writes an R register active at its start (live register of an enclosing operation) except the add of a RegFuture.add on its own handle. Tie: syntactic correspondence — "
     "random and adversarial host programs are run through the REAL SDK API; the proto-subroutine of every flush must "
     "equal the model's command for command and the MemoryManager snapshot (active registers, M registers, arrays/"
     "registers to return) must be equal after every top-level operation, including sequences of several hundred "
